@@ -210,6 +210,9 @@ fn placements(valid: &[String], poison: &[String], unrelated: Option<&str>) -> V
         let mut attrs = vec![Attr::Args(vec![u.clone()])];
         attrs.extend(all.iter().map(|a| Attr::Args(vec![a.clone()])));
         out.push(("unrelated attribute first".into(), attrs));
+        let mut attrs: Vec<Attr> = all.iter().map(|a| Attr::Args(vec![a.clone()])).collect();
+        attrs.push(Attr::Args(vec![u.clone()]));
+        out.push(("unrelated attribute last".into(), attrs));
         if all.len() >= 2 {
             let mut attrs: Vec<Attr> = vec![Attr::Args(vec![all[0].clone()]), Attr::Args(vec![u.clone()])];
             attrs.extend(all[1..].iter().map(|a| Attr::Args(vec![a.clone()])));
@@ -278,10 +281,7 @@ fn poison_at(
     let raws = raws_of(&existing);
     let poison: Vec<String> = poison.iter().map(|s| s.to_string()).collect();
     let mut pls = placements(&valid, &poison, unrelated);
-    if tier == Tier::Quick {
-        // quick tier: the three principal placements
-        pls.retain(|(n, _)| n == "one attribute" || n == "one attribute per argument" || n == "unrelated attribute between" || n == "unrelated first, one attribute");
-    }
+    let _ = tier; // every placement in both tiers (a forgotten span can depend on what follows the argument)
     for (pname, attrs) in pls {
         let mut it = b.clone();
         let slot = attrs_at(&mut it, pos);
@@ -541,6 +541,24 @@ fn programs(tier: Tier) -> Vec<Program> {
         poison_at(o, b, pos, "field-under-conversion", "malformed field attribute under container from/try_from", &["rename ="], None, tier);
         poison_at(o, b, pos, "field-under-conversion", "field from together with try_from under container from/try_from", &["from(String) = ffrom", "try_from(String) = ftry -> Cerr"], None, tier);
     }
+    // positional fields of tuple structs / tuple variants are legitimate under a container from /
+    // try_from; their attributes must be checked all the same
+    for (cause, attr) in [
+        ("unknown attribute on a positional field under container from", "#[deserr(bogus)]"),
+        ("rename given twice on a positional field under container from", "#[deserr(rename = \"x\", rename = \"y\")]"),
+        ("malformed attribute on a positional field under container from", "#[deserr(rename =)]"),
+        ("from together with try_from on a positional field under container from", "#[deserr(from(String) = ffrom, try_from(String) = ftry -> Cerr)]"),
+    ] {
+        let mut it = base("CF");
+        it.body = Some(format!("({attr} pub u8);"));
+        o.push(Program { cause: format!("{cause} [tuple struct]"), level: "field-under-conversion", placement: "verbatim".into(), item: it });
+        let mut it = base("CT");
+        it.body = Some(format!("(pub u8, {attr} pub String);"));
+        o.push(Program { cause: format!("{cause} [tuple struct, try_from]"), level: "field-under-conversion", placement: "verbatim".into(), item: it });
+        let mut it = base("CE");
+        it.members.push(field(&format!("T({attr} u8)")));
+        o.push(Program { cause: format!("{cause} [tuple variant]"), level: "field-under-conversion", placement: "verbatim".into(), item: it });
+    }
     poison_at(o, "CE", Pos::Member(1), "variant-under-conversion", "unknown variant attribute under container from", &["bogus"], None, tier);
     poison_at(o, "CE", Pos::Member(1), "variant-under-conversion", "variant rename given twice under container from", &["rename = \"x\"", "rename = \"y\""], None, tier);
     out
@@ -552,6 +570,15 @@ fn clean_programs() -> Vec<Program> {
     let mut out = vec![];
     for b in bases() {
         out.push(Program { cause: format!("base {}", b.base), level: "valid", placement: "plain".into(), item: b });
+    }
+    // tuple struct / tuple variant under a container from, with a valid attribute on the positional field
+    {
+        let mut it = base("CF");
+        it.body = Some("(#[deserr(rename = \"x\")] pub u8);".into());
+        out.push(Program { cause: "valid tuple struct under container from".into(), level: "valid", placement: "plain".into(), item: it });
+        let mut it = base("CE");
+        it.members.push(field("T(#[deserr(default)] u8)"));
+        out.push(Program { cause: "valid tuple variant under container from".into(), level: "valid", placement: "plain".into(), item: it });
     }
     let mut add = |name: &str, pos: Pos, args: &[&str]| {
         let b = base(name);
